@@ -140,6 +140,8 @@ def bounded(tier, seed):
         [(0, 1, 1), (3, 6, 3), (4, 6, 2)],
         [(0, 1, 1), (1, 4, 1), (2, 8, 4), (4, 4, 4)],
         [(0, 1, 1), (4, 6, 1), (4, 6, 3)],
+        [(0, 1, 1), (3, 4, 2), (4, 6, 2), (4, 6, 2)],  # two posterior epochs with EQUAL configs
+        [(0, 1, 1), (1, 4, 1), (1, 4, 1), (4, 4, 1)],  # two warmup epochs with equal configs
     ]
     if tier != "quick":
         for _ in range(12):
